@@ -25,8 +25,8 @@ type OLVM struct {
 	n         int
 	nonce     map[string]uint64
 	contracts map[string]ethcmn.Address // name -> address
-	pending   map[string]pendingCreate   // tx hash note -> info
-	OneTx     bool                       // at most one OLVM tx per block (accounting histories)
+	pending   map[string]pendingCreate  // tx hash note -> info
+	OneTx     bool                      // at most one OLVM tx per block (accounting histories)
 	Hostile   bool
 }
 
